@@ -406,9 +406,9 @@ func main() {
 		}
 	}
 	rng := e.Rng
-	n := e.N(4, 20)
+	n := e.N(4, 10)
 	for i := 0; i < n; i++ {
-		k := kase{Kind: "history", Seed: e.Seed*1000 + uint64(i), Rows: e.N(150, 1200), Full: i%2 == 1, Archive: (i / 2) % 2, Via: "sql", Two: i%4 == 1 || i%4 == 2}
+		k := kase{Kind: "history", Seed: e.Seed*1000 + uint64(i), Rows: e.N(150, 600), Full: i%2 == 1, Archive: (i / 2) % 2, Via: "sql", Two: i%4 == 1 || i%4 == 2}
 		if rng.Chance(1, 3) {
 			k.Via = "api"
 		}
